@@ -1,4 +1,4 @@
-import QibProofs.Lemmas.TNetSurgeryOps
+import QibProofs.Lemmas.TNetSurgeryFull
 /-!
 C08 — Network surgery keeps the network consistent and means what it says.
 Property theorems only (helper lemmas: `QibProofs/Lemmas/TNetSurgery*.lean`, `TNetBasic.lean`, `TNetSum.lean`).
@@ -96,6 +96,277 @@ theorem C08_transpose_rejects {net : Net} {v : STensor} (axes : Option (List Int
 theorem C08_transpose_consistent {net net' : Net} {axes : Option (List Int)} (h : Inv net)
     (hok : transpose net axes = .ok net') : Inv net' :=
   (C08_inv_iff_wf net').mpr (transpose_wf ((C08_inv_iff_wf net).mp h) hok)
+
+/-! ### `merge` -/
+
+/-- the dimension guard of a join list: joined open axes have equal dimensions (the code does not test it; a join of
+axes of different dimensions has no meaning as a contraction) -/
+def JoinDimsMatch (a b : Net) (j : List (Int × Int)) : Prop :=
+  ∀ va vb, dget a.tensors (-1) = some va → dget b.tensors (-1) = some vb →
+    ∀ ja ∈ j, va.shape[ja.1.toNat]? = vb.shape[ja.2.toNat]?
+
+/-- the two iteration orders of Python sets that `merge` consumes are permutations of the shared ids
+(checked by the driver on every call; the theorems hold for every such order) -/
+def OrdersOK (a b : Net) (tor bor : List Int) : Prop := tor.Perm (sharedTids a b) ∧ bor.Perm (sharedBids a b)
+
+/-- **`merge` keeps the network consistent**: whenever it returns (range checks passed, no fused bond is left with
+fewer than two references - the code's `assert`), the result passes the consistency check, for every join list
+(axes may be reused on either side) with matching dimensions and every iteration order of the shared-id sets. -/
+theorem C08_merge_consistent {a b net' : Net} {j : List (Int × Int)} {tor bor : List Int} (ha : Inv a) (hb : Inv b)
+    (ho : OrdersOK a b tor bor) (hdim : JoinDimsMatch a b j) (hok : merge a b j tor bor = .ok net') : Inv net' :=
+  (C08_inv_iff_wf net').mpr
+    (merge_wf ((C08_inv_iff_wf a).mp ha) ((C08_inv_iff_wf b).mp hb) ho.1 ho.2 hdim hok)
+
+/-- a successful `merge` only happened with all joined axes in range (the `ValueError` guard of the code) -/
+theorem C08_merge_accepts_only_in_range {a b net' : Net} {j : List (Int × Int)} {tor bor : List Int}
+    (hok : merge a b j tor bor = .ok net') :
+    ∃ oa ob, numOpenAxes a = .ok oa ∧ (j ≠ [] → numOpenAxes b = .ok ob) ∧
+      ∀ ja ∈ j, 0 ≤ ja.1 ∧ ja.1 < oa ∧ 0 ≤ ja.2 ∧ ja.2 < ob := by
+  obtain ⟨orig, nb, _, _, _, _, _, _, _, _, _, _, _, h1, h2, h3, _⟩ := merge_ok_inv hok
+  exact ⟨orig, nb, h1, h2, h3⟩
+
+/-! ### counting laws -/
+
+/-- `rename_tensor`, `rename_bond`, `transpose` change no count -/
+theorem C08_renameTensor_counts {net net' : Net} {cur new : Int} (h : Inv net) (hc : cur ≠ -1)
+    (hok : renameTensor net cur new = .ok net') :
+    numTensors net' = numTensors net ∧ numBonds net' = numBonds net ∧ numOpenAxes net' = numOpenAxes net := by
+  have hw := (C08_inv_iff_wf net).mp h
+  have hw' := (C08_inv_iff_wf net').mp (C08_renameTensor_consistent h hc hok)
+  obtain ⟨T, hT, hnew, rfl⟩ := renameTensor_spec hw.toWF0 hok
+  obtain ⟨v, hv⟩ := hw.virt_get
+  have hv' : dget (dpop net.tensors cur ++ [(new, { T with tid := new })]) (-1) = some v :=
+    dget_append_left _ _ (by rw [dget_dpop_ne _ (fun e => hc e.symm)]; exact hv)
+  refine ⟨?_, ?_, ?_⟩
+  · rw [numTensors_eq hw'.virt, numTensors_eq hw.virt]
+    have := length_dpop_of_nodup net.tensors hw.tnodup (mem_dkeys_of_mem (mem_of_dget_eq_some _ hT))
+    simp only at this
+    simp only [List.length_append, List.length_cons, List.length_nil]
+    congr 1; omega
+  · simp [numBonds, relBonds]
+  · rw [numOpenAxes_eq hv', numOpenAxes_eq hv]
+
+theorem C08_renameBond_counts {net net' : Net} {cur new : Int} (h : Inv net)
+    (hok : renameBond net cur new = .ok net') :
+    numTensors net' = numTensors net ∧ numBonds net' = numBonds net ∧ numOpenAxes net' = numOpenAxes net := by
+  have hw := (C08_inv_iff_wf net).mp h
+  have hw' := (C08_inv_iff_wf net').mp (C08_renameBond_consistent h hok)
+  obtain ⟨B, hB, hnew, rfl⟩ := renameBond_spec hw.toWF0 hok
+  obtain ⟨v, hv⟩ := hw.virt_get
+  have hv' : dget (relTensors (rep cur new) net.tensors) (-1) = some { v with bids := v.bids.map (rep cur new) } := by
+    rw [dget_relTensors, hv]; rfl
+  refine ⟨?_, ?_, ?_⟩
+  · rw [numTensors_eq hw'.virt, numTensors_eq hw.virt]; simp [relTensors]
+  · have := length_dpop_of_nodup net.bonds hw.bnodup (mem_dkeys_of_mem (mem_of_dget_eq_some _ hB))
+    simp only at this
+    simp only [numBonds, List.length_append, List.length_cons, List.length_nil]; omega
+  · rw [numOpenAxes_eq hv', numOpenAxes_eq hv]
+
+theorem C08_transpose_counts {net net' : Net} {axes : Option (List Int)} (h : Inv net)
+    (hok : transpose net axes = .ok net') :
+    numTensors net' = numTensors net ∧ numBonds net' = numBonds net ∧ numOpenAxes net' = numOpenAxes net := by
+  have hw := (C08_inv_iff_wf net).mp h
+  have hw' := (C08_inv_iff_wf net').mp (C08_transpose_consistent h hok)
+  obtain ⟨v, hv, hp, rfl⟩ := transpose_spec hw hok
+  have hv' : dget (dmodify net.tensors (-1) (fun _ => transposedVirt v axes)) (-1) = some (transposedVirt v axes) := by
+    rw [dget_dmodify, hv]; simp
+  refine ⟨?_, rfl, ?_⟩
+  · rw [numTensors_eq hw'.virt, numTensors_eq hw.virt]; simp [dmodify]
+  · rw [numOpenAxes_eq hv', numOpenAxes_eq hv]
+    have := (toNat_perm_of_isort hp).length_eq
+    simp only [transposedVirt, pickD, List.length_map, List.length_range] at this ⊢
+    rw [this]
+
+/-- **The counts add up after `merge`**: tensors add; open axes: `a + b −` (number of distinct joined axes of the
+first) `−` (number of distinct joined axes of the second); bonds: at most the sum, and every join pair fuses at most
+one pair of bonds. -/
+theorem C08_merge_counts {a b net' : Net} {j : List (Int × Int)} {tor bor : List Int} (ha : Inv a) (hb : Inv b)
+    (ho : OrdersOK a b tor bor) (hdim : JoinDimsMatch a b j) (hok : merge a b j tor bor = .ok net') :
+    ∃ ta tb oa ob, numTensors a = .ok ta ∧ numTensors b = .ok tb ∧ numOpenAxes a = .ok oa ∧ numOpenAxes b = .ok ob ∧
+      numTensors net' = .ok (ta + tb) ∧
+      numOpenAxes net' = .ok (oa + ob - (distinct (j.map (·.1)) + distinct (j.map (·.2)))) ∧
+      distinct (j.map (·.1)) + distinct (j.map (·.2)) ≤ oa + ob ∧
+      numBonds net' ≤ numBonds a + numBonds b ∧ numBonds a + numBonds b ≤ numBonds net' + j.length := by
+  have wa := (C08_inv_iff_wf a).mp ha
+  have wb := (C08_inv_iff_wf b).mp hb
+  have r := merge_result wa wb ho.1 ho.2 hdim hok
+  obtain ⟨c1, c2, c3, va, vb, v', hva, hvb, hv', c4⟩ := merge_counts_of_result r
+  have hta : 1 ≤ a.tensors.length := List.length_pos_of_mem (mem_of_dget_eq_some _ hva)
+  have htb : 1 ≤ b.tensors.length := List.length_pos_of_mem (mem_of_dget_eq_some _ hvb)
+  refine ⟨a.tensors.length - 1, b.tensors.length - 1, va.shape.length, vb.shape.length, numTensors_eq wa.virt,
+    numTensors_eq wb.virt, numOpenAxes_eq hva, numOpenAxes_eq hvb, ?_, ?_, by omega, c2, c3⟩
+  · rw [numTensors_eq r.wf.virt]; congr 1; omega
+  · rw [numOpenAxes_eq hv']; congr 1; omega
+
+/-! ### what the operations mean: the contracted value `full`
+
+`full net D idx` is the defining sum of the network: the sum over all assignments of an index to every bond without
+open leg of the product of the tensor entries (`D r i` = entry `i` of the array stored under data reference `r`), the
+bonds with open legs pinned to the logical multi-index `idx`. `α` is any commutative semiring (the driver computes in
+`Int`, the implementation in floating point). -/
+section Value
+variable {α : Type} [CommSemiring α]
+
+/-- **Renaming a tensor leaves the contracted value unchanged** (every entry, every data assignment) -/
+theorem C08_renameTensor_full {net net' : Net} {cur new : Int} (h : Inv net) (hc : cur ≠ -1)
+    (hok : renameTensor net cur new = .ok net') (D : Option Int → List Nat → α) (idx : List Nat) :
+    full net' D idx = full net D idx :=
+  renameTensor_full ((C08_inv_iff_wf net).mp h) hc hok D idx
+
+/-- **Renaming a bond leaves the contracted value unchanged** -/
+theorem C08_renameBond_full {net net' : Net} {cur new : Int} (h : Inv net)
+    (hok : renameBond net cur new = .ok net') (D : Option Int → List Nat → α) (idx : List Nat) :
+    full net' D idx = full net D idx :=
+  renameBond_full ((C08_inv_iff_wf net).mp h) hok D idx
+
+/-- **`transpose` transposes the value like `numpy.transpose`**: with `ax` the (resolved) axes list,
+`transpose(net, ax)[j[ax[0]], …, j[ax[n-1]]] = net[j]` for every multi-index `j` of the original network
+(`pickD j 0 ax = [j[ax[0]], …]`; `ax = None` is the reversal). -/
+theorem C08_transpose_full {net net' : Net} {axes : Option (List Int)} (h : Inv net)
+    (hok : transpose net axes = .ok net') (D : Option Int → List Nat → α) {v : STensor}
+    (hv : dget net.tensors (-1) = some v) (j : List Nat) (hj : j.length = v.shape.length) :
+    full net' D (pickD j 0 ((resolveAxes v.shape.length axes).map Int.toNat)) = full net D j :=
+  transpose_full ((C08_inv_iff_wf net).mp h) hok D hv j hj
+
+/-- the shape is transposed alongside -/
+theorem C08_transpose_shape {net net' : Net} {axes : Option (List Int)} (h : Inv net)
+    (hok : transpose net axes = .ok net') {v : STensor} (hv : dget net.tensors (-1) = some v) :
+    netShape net' = .ok (pickD v.shape 0 ((resolveAxes v.shape.length axes).map Int.toNat)) := by
+  obtain ⟨v0, hv0, _, rfl⟩ := transpose_spec ((C08_inv_iff_wf net).mp h) hok
+  rw [hv] at hv0; cases hv0
+  unfold netShape virt
+  rw [dget_dmodify, hv]
+  simp [transposedVirt]
+
+end Value
+
+/-! ### operation sequences -/
+
+/-- one surgery operation applied to one of several networks (`merge i k`: network `k` is merged into network `i`) -/
+inductive Op where
+  | renameTensor (i : Nat) (cur new : Int)
+  | renameBond (i : Nat) (cur new : Int)
+  | transpose (i : Nat) (axes : Option (List Int))
+  | merge (i k : Nat) (join : List (Int × Int)) (tor bor : List Int)
+
+def getNet (nets : List Net) (i : Nat) : Except Err Net :=
+  match nets[i]? with
+  | some n => .ok n
+  | none => .error .indexError
+
+/-- apply one operation; only network `i` changes (the second operand of `merge` is an argument, not a state) -/
+def applyOp (nets : List Net) : Op → Except Err (List Net)
+  | .renameTensor i cur new => do let n ← getNet nets i; return nets.set i (← renameTensor n cur new)
+  | .renameBond i cur new => do let n ← getNet nets i; return nets.set i (← renameBond n cur new)
+  | .transpose i axes => do let n ← getNet nets i; return nets.set i (← transpose n axes)
+  | .merge i k join tor bor => do
+    let a ← getNet nets i
+    let b ← getNet nets k
+    return nets.set i (← merge a b join tor bor)
+
+/-- the guards under which the invariant is claimed (everything else is enforced by the code itself) -/
+def opGuard (nets : List Net) : Op → Prop
+  | .renameTensor _ cur _ => cur ≠ -1
+  | .renameBond _ _ _ => True
+  | .transpose _ _ => True
+  | .merge i k join tor bor => ∀ a b, nets[i]? = some a → nets[k]? = some b → OrdersOK a b tor bor ∧ JoinDimsMatch a b join
+
+/-- **Every single operation preserves the invariant** -/
+theorem C08_step_consistent {nets nets' : List Net} {op : Op} (h : ∀ n ∈ nets, Inv n) (hg : opGuard nets op)
+    (hok : applyOp nets op = .ok nets') : ∀ n ∈ nets', Inv n := by
+  have hget : ∀ i n, getNet nets i = .ok n → nets[i]? = some n ∧ n ∈ nets := by
+    intro i n hn
+    unfold getNet at hn
+    cases hi : nets[i]? with
+    | none => rw [hi] at hn; cases hn
+    | some m =>
+      rw [hi] at hn
+      have := Except.ok.inj hn; subst this
+      exact ⟨rfl, List.mem_of_getElem? hi⟩
+  have hset : ∀ i (x : Net), Inv x → ∀ n ∈ nets.set i x, Inv n := by
+    intro i x hx n hn
+    rcases List.mem_or_eq_of_mem_set hn with hn | rfl
+    · exact h n hn
+    · exact hx
+  cases op with
+  | renameTensor i cur new =>
+    simp only [applyOp, bind, Except.bind, pure, Except.pure] at hok
+    split at hok
+    · cases hok
+    · rename_i n hn
+      split at hok
+      · cases hok
+      · rename_i n' hn'
+        rw [← Except.ok.inj hok]
+        exact hset i n' (C08_renameTensor_consistent (h n (hget i n hn).2) hg hn')
+  | renameBond i cur new =>
+    simp only [applyOp, bind, Except.bind, pure, Except.pure] at hok
+    split at hok
+    · cases hok
+    · rename_i n hn
+      split at hok
+      · cases hok
+      · rename_i n' hn'
+        rw [← Except.ok.inj hok]
+        exact hset i n' (C08_renameBond_consistent (h n (hget i n hn).2) hn')
+  | transpose i axes =>
+    simp only [applyOp, bind, Except.bind, pure, Except.pure] at hok
+    split at hok
+    · cases hok
+    · rename_i n hn
+      split at hok
+      · cases hok
+      · rename_i n' hn'
+        rw [← Except.ok.inj hok]
+        exact hset i n' (C08_transpose_consistent (h n (hget i n hn).2) hn')
+  | merge i k join tor bor =>
+    simp only [applyOp, bind, Except.bind, pure, Except.pure] at hok
+    split at hok
+    · cases hok
+    · rename_i a ha
+      split at hok
+      · cases hok
+      · rename_i b hb
+        split at hok
+        · cases hok
+        · rename_i n' hn'
+          rw [← Except.ok.inj hok]
+          obtain ⟨g1, g2⟩ := hg a b (hget i a ha).1 (hget k b hb).1
+          exact hset i n' (C08_merge_consistent (h a (hget i a ha).2) (h b (hget k b hb).2) g1 g2 hn')
+
+/-- a history: an operation the code refuses raises before (or, for the `assert` inside `merge`, instead of)
+producing a new network; the state then stays what it was -/
+def runOps (nets : List Net) : List Op → List Net
+  | [] => nets
+  | op :: ops =>
+    match applyOp nets op with
+    | .ok nets' => runOps nets' ops
+    | .error _ => runOps nets ops
+
+/-- the guards hold along the history -/
+def guardsHold (nets : List Net) : List Op → Prop
+  | [] => True
+  | op :: ops =>
+    opGuard nets op ∧
+      guardsHold (match applyOp nets op with
+        | .ok nets' => nets'
+        | .error _ => nets) ops
+
+/-- **The invariant holds after every history**, from any consistent starting point, for operations in any
+sequence on any number of networks (by induction over the history) -/
+theorem C08_ops_consistent (ops : List Op) (nets : List Net) (h : ∀ n ∈ nets, Inv n) (hg : guardsHold nets ops) :
+    ∀ n ∈ runOps nets ops, Inv n := by
+  induction ops generalizing nets with
+  | nil => exact h
+  | cons op ops ih =>
+    simp only [runOps, guardsHold] at hg ⊢
+    cases hstep : applyOp nets op with
+    | ok nets' =>
+      rw [hstep] at hg
+      exact ih nets' (C08_step_consistent h hg.1 hstep) hg.2
+    | error e =>
+      rw [hstep] at hg
+      exact ih nets h hg.2
 
 /-! ### non-vacuity: `TensorNetwork.wrap` of a 2×3 array satisfies the invariant and the operations apply -/
 
